@@ -453,7 +453,7 @@ func (w *World) rowSlotOfStore(st *ssa.Store) (g *ssa.Global, row int, field int
 }
 
 type tableMemberKey struct {
-	g     *ssa.Global
+	g     ssa.Value
 	field int
 }
 
